@@ -14,11 +14,10 @@
                          alternatives chained in written order, recursively), and its conclusion IS
                          `fireRule`, the recursive RDR reference — refinements and alternatives
                          nested to any depth under any branch
-    c12_build_expected_small  the transliterated imperative construction (`buildRule`: refineAt /
-                         altAt with "climb while left operand") produces exactly `expected` — checked
-                         by `decide` for every program shape of up to 5 blocks (a TEST of the
-                         construction, not a proof for all sizes; the construction is additionally
-                         compared with the real tree on every run)
+    c12_build_expected   (in Lemmas/RuleBuild.lean) the transliterated imperative construction
+                         (`buildRule`: refineAt / altAt with "climb while left operand") produces exactly
+                         `expected` for EVERY surface program; `c12_build_expected_small` below is the
+                         kernel-evaluated sanity test of the same statement on all programs of <= 4 blocks
 -/
 import EqlModel.Rules
 import EqlModel.Lemmas.Closed
